@@ -671,3 +671,59 @@ def rule_lk1(ctx, rels):
                             "array).point_along(0.5) returns the basepoint)",
                             instance=inst)
     return n_sites
+
+
+# ---------------------------------------------------------------------------
+# T4: `like=` is a typed value, never a callable
+
+
+def rule_t4(ctx, rels):
+    r = ctx.r
+    r.rule("T4", "the value given as `like` (keyword or kwargs['like']) is "
+                 "data whose dtype is meant to be copied; a callable has no "
+                 "dtype, so check_type falls back to dtype('O') and the "
+                 "result is an object array on which inversion, SVD and "
+                 "eigen-decomposition fail")
+    n_sites = 0
+    for rel in rels:
+        m = ctx.p.module_by_rel(rel)
+        for f in ctx.p.all_functions:
+            if f.module is not m:
+                continue
+            called = {dotted(c.func) for c in ast.walk(f.node)
+                      if isinstance(c, ast.Call)
+                      and isinstance(c.func, ast.Name)}
+            sites = []
+            for n in ast.walk(f.node):
+                if isinstance(n, ast.Assign) and len(n.targets) == 1 \
+                        and isinstance(n.targets[0], ast.Subscript) \
+                        and isinstance(n.targets[0].slice, ast.Constant) \
+                        and n.targets[0].slice.value == "like":
+                    sites.append((n, n.value))
+                if isinstance(n, ast.Call):
+                    for k in n.keywords:
+                        if k.arg == "like":
+                            sites.append((n, k.value))
+            for node, v in sites:
+                n_sites += 1
+                bad = isinstance(v, ast.Lambda) or (
+                    isinstance(v, ast.Name) and v.id in called
+                    and v.id in f.params)
+                if not bad:
+                    continue
+                r.analysed(f)
+                r.violation(
+                    "T4", f"{f.fq}|like-callable:{dotted(v)[:30]}",
+                    loc(f, node), norm_stmt(node)[:140]
+                    if isinstance(node, ast.stmt) else dotted(node)[:140],
+                    f"`{dotted(v)[:40]}` is called as a function in "
+                    f"{f.qualname} and is also handed over as `like`: "
+                    "check_type(like=<function>) yields dtype('O'), so "
+                    "gln_adjoint / sln_adjoint of a float matrix return "
+                    "object arrays and the form-adjoint homomorphisms "
+                    "(so_adjoint, sp_adjoint, so21_adjoint) raise "
+                    "UFuncTypeError in the SVD kernel",
+                    instance=f"{f.qualname}:like")
+    r.ok("T4", "like-sites", ",".join(rels), "",
+         f"{n_sites} `like` sites examined") if n_sites else None
+    return n_sites
